@@ -348,7 +348,8 @@ var curCfg pipeCfg
 // and answers with the next harness id.
 type askedRec struct {
 	id  int
-	q   dns.Question
+	q   dns.Question // what the upstream was asked
+	rq  dns.Question // the question its answer carries (normally q)
 	cd  bool
 	ecs *dns.EDNS0_SUBNET
 }
@@ -375,16 +376,30 @@ func (u *upstream) answer(req *dns.Msg, scopeBits int) *dns.Msg {
 
 func (u *upstream) answerWith(req *dns.Msg, ans *ansSpec) *dns.Msg {
 	scopeBits := ans.scopeBits
-	rec := askedRec{id: u.nextID, q: req.Question[0], cd: req.CheckingDisabled, ecs: reqECS(req)}
+	rec := askedRec{id: u.nextID, q: req.Question[0], rq: req.Question[0], cd: req.CheckingDisabled, ecs: reqECS(req)}
 	u.nextID++
-	u.asked = append(u.asked, rec)
 	resp := new(dns.Msg)
 	resp.SetReply(req)
 	resp.RecursionAvailable = true
-	resp.Answer = markerRRs(rec.q.Name, rec.q.Qtype, rec.q.Qclass, rec.id, "")
+	if ans.rq != nil {
+		rec.rq = ans.rq.q()
+		resp.Question = []dns.Question{rec.rq}
+	}
+	u.asked = append(u.asked, rec)
+	aliasPres := ""
+	if ans.alias != nil {
+		aliasPres = ans.alias.pres
+	}
+	resp.Answer = markerRRs(rec.rq.Name, rec.rq.Qtype, rec.rq.Qclass, rec.id, aliasPres)
+	o := new(dns.OPT)
+	o.Hdr.Name, o.Hdr.Rrtype = ".", dns.TypeOPT
+	o.SetUDPSize(4096)
+	layout := ans.layout
+	if layout == "" {
+		layout = "S"
+	}
+	var subOpt dns.EDNS0
 	if scopeBits >= 0 && rec.ecs != nil {
-		o := new(dns.OPT)
-		o.Hdr.Name, o.Hdr.Rrtype = ".", dns.TypeOPT
 		sub := &dns.EDNS0_SUBNET{Code: dns.EDNS0SUBNET, Family: rec.ecs.Family,
 			SourceNetmask: rec.ecs.SourceNetmask, SourceScope: uint8(scopeBits), Address: rec.ecs.Address}
 		if ans.echo.IsValid() {
@@ -393,7 +408,25 @@ func (u *upstream) answerWith(req *dns.Msg, ans *ansSpec) *dns.Msg {
 				sub.Family = 2
 			}
 		}
-		o.Option = []dns.EDNS0{sub}
+		subOpt = sub
+	}
+	for _, c := range layout {
+		switch c {
+		case 'S':
+			if subOpt != nil {
+				o.Option = append(o.Option, subOpt)
+			}
+		case 'c':
+			o.Option = append(o.Option, &dns.EDNS0_COOKIE{Code: dns.EDNS0COOKIE, Cookie: "0102030405060708a1a2a3a4a5a6a7a8"})
+		case 'n':
+			o.Option = append(o.Option, &dns.EDNS0_NSID{Code: dns.EDNS0NSID, Nsid: "6e73"})
+		case 'e':
+			o.Option = append(o.Option, &dns.EDNS0_EDE{InfoCode: dns.ExtendedErrorCodeOther, ExtraText: "x"})
+		case 'p':
+			o.Option = append(o.Option, &dns.EDNS0_PADDING{Padding: make([]byte, 4)})
+		}
+	}
+	if len(o.Option) > 0 {
 		resp.Extra = []dns.RR{o}
 	}
 	if ans.flipCD {
@@ -404,7 +437,7 @@ func (u *upstream) answerWith(req *dns.Msg, ans *ansSpec) *dns.Msg {
 
 // Query implements middleware.Queryer for the prefetch sub-pipeline.
 func (u *upstream) Query(_ context.Context, req *dns.Msg) (*dns.Msg, error) {
-	return u.answer(req, -1), nil
+	return u.answerWith(req, drainSpec), nil
 }
 
 var up = &upstream{}
@@ -432,6 +465,19 @@ func newPipe(ecs bool, pcf pipeCfg) {
 	pc.SetPrefetchQueryer(up)
 	pe = edns.New(cfg)
 	ecsOn = ecs
+	// the oracle's view of the operator's knobs (documented defaults: ceilings /24 and /56, floors = ceilings)
+	if pcf.f4 == 0 {
+		pcf.f4 = 24
+	}
+	if pcf.f6 == 0 {
+		pcf.f6 = 56
+	}
+	if pcf.m4 == 0 {
+		pcf.m4 = pcf.f4
+	}
+	if pcf.m6 == 0 {
+		pcf.m6 = pcf.f6
+	}
 	curCfg = pcf
 	entries = map[int]*storedEntry{}
 	failures = map[int]*storedFailure{}
@@ -666,7 +712,13 @@ type ansSpec struct {
 	scopeBits int        // -1: no ECS option in the response
 	echo      netip.Addr // the ADDRESS (and family) the authority puts in its ECS option; invalid = the one it was sent
 	flipCD    bool       // the reply carries the other CD bit than the request
+	layout    string     // the reply's OPT options in order: S = the ECS option, c cookie, n NSID, e EDE, p padding ("" = "S")
+	rq        *ident     // the reply answers ANOTHER question than it was asked (rewriting upstream)
+	alias     *nameT     // the reply is an alias without its terminal: CNAME to this name
 }
+
+// drainSpec shapes the answers of the prefetch upstream during one `pipe drain`.
+var drainSpec = &ansSpec{scopeBits: -1}
 
 func serve(route string, r reqSpec, ans *ansSpec) (out string, reply *dns.Msg, via string) {
 	proto := "udp"
@@ -807,8 +859,9 @@ func judge(entry string, out string, r reqSpec, hasECS bool) string {
 				case e.cd != r.id.cd:
 					return fmt.Sprintf("FAIL sig=%s/hit/%sother-cd-partition entry=%s", entry, hop, s)
 				}
-				if e.scope.IsValid() {
+				if e.scope.IsValid() && !(i == 0 && vlib.Atoi(s) == judgeFresh) {
 					// only clients inside the scope the authority tailored the answer to
+					// (the asker itself is handed the upstream's fresh answer whatever subnet it names)
 					if i > 0 || !oAudienceOK(e.scope, clientScope) {
 						return fmt.Sprintf("FAIL sig=%s/hit/%sclient-outside-scope entry=%s scope=%s client=%s", entry, hop, s, e.scope, clientScope)
 					}
@@ -1170,6 +1223,9 @@ func strictMode() bool { return os.Getenv("C03_STRICT") != "" }
 // judgeTags collects tags the oracle wants on the op it is judging.
 var judgeTags []string
 
+// judgeFresh is the id of an answer that came straight from the upstream in the op being judged (0 = none).
+var judgeFresh int
+
 func execPipe(f []string) vlib.Res {
 	switch f[1] {
 	case "new": // pipe new <ecs on|off> [fwd4,fwd6,min4,min6,prefetch%]
@@ -1197,6 +1253,13 @@ func execPipe(f []string) vlib.Res {
 	case "drain": // pipe drain <first id>: run the queued background refreshes (real processPrefetch)
 		up.nextID = vlib.Atoi(f[2])
 		up.asked = nil
+		drainSpec = &ansSpec{scopeBits: -1}
+		for _, t := range f[3:] {
+			if strings.HasPrefix(t, "rq=") {
+				id := parseIdent(t[3:])
+				drainSpec.rq = &id
+			}
+		}
 		var parts []string
 		or := "ok"
 		mcache.VerifC03DrainPrefetch(pc, func(key uint64, refreshed *mcache.CacheEntry) {
@@ -1213,8 +1276,9 @@ func execPipe(f []string) vlib.Res {
 				}
 			}
 			al, _ := oPresLabels(rec.q.Name)
-			// the answer was obtained for the question the upstream was ASKED
-			entries[rec.id] = &storedEntry{labels: al, qtype: rec.q.Qtype, class: rec.q.Qclass, cd: rec.cd, ptr: ptr}
+			// the answer was obtained in the partition the upstream was ASKED in, for the question it carries
+			rl, _ := oPresLabels(rec.rq.Name)
+			entries[rec.id] = &storedEntry{labels: rl, qtype: rec.rq.Qtype, class: rec.rq.Qclass, cd: rec.cd, ptr: ptr}
 			parts = append(parts, fmt.Sprintf("asked=%s,%d,%d,%s id=%d r=%s", presTok(rec.q.Name), rec.q.Qtype, rec.q.Qclass, vlib.B(rec.cd), rec.id, vlib.B(replaced)))
 			// oracle: a refresh re-asks the question, in the partition, of the entry it refreshes
 			old := mcache.VerifC03EntryIdent(refreshed)
@@ -1227,6 +1291,10 @@ func execPipe(f []string) vlib.Res {
 			}
 			if replaced {
 				got := mcache.VerifC03EntryIdent(ptr)
+				gl, _ := oPresLabels(got.Q.Name)
+				if !oLabelsFoldEq(gl, rl) || got.Q.Qtype != rec.rq.Qtype || got.Q.Qclass != rec.rq.Qclass {
+					or = "FAIL sig=pipe/drain/answer-for-another-question-filed-as-the-refreshed-one"
+				}
 				if got.CD != rec.cd {
 					or = fmt.Sprintf("FAIL sig=pipe/drain/answer-to-cd=%s-question-filed-in-cd=%s-partition", vlib.B(rec.cd), vlib.B(got.CD))
 				}
@@ -1246,10 +1314,26 @@ func execPipe(f []string) vlib.Res {
 				ans.echo = parseScope(e + "/0").Addr()
 			}
 		}
-		ans.flipCD = len(f) > 7 && f[7] == "flipcd"
 		judgeTags = nil
+		for _, t := range f[7:] {
+			switch {
+			case t == "flipcd":
+				ans.flipCD = true
+			case strings.HasPrefix(t, "opt="):
+				ans.layout = t[4:]
+				judgeTags = append(judgeTags, "opt-"+t[4:])
+			case strings.HasPrefix(t, "rq="):
+				id := parseIdent(t[3:])
+				ans.rq = &id
+				judgeTags = append(judgeTags, "rewritten-question")
+			case strings.HasPrefix(t, "alias="):
+				n := parseName(t[6:])
+				ans.alias = &n
+				judgeTags = append(judgeTags, "alias-answer")
+			}
+		}
 		up.asked = nil
-		out, _, via := serve(f[2], r, ans)
+		out, reply, via := serve(f[2], r, ans)
 		if out != "answered" {
 			return vlib.Res{Impl: out, Oracle: judge("pipe/ask-"+f[2], out, r, hasECSOpt(r)), Tags: "nt," + via}
 		}
@@ -1259,7 +1343,7 @@ func execPipe(f []string) vlib.Res {
 		// the address the authority named, of min(SCOPE, SOURCE, floor of that family) bits
 		// (a SCOPE longer than the address cannot come off the wire — the codec refuses the option — and is not judged)
 		allowed := netip.Prefix{}
-		if rec.ecs != nil && ans.scopeBits > 0 {
+		if rec.ecs != nil && ans.scopeBits > 0 && (ans.layout == "" || strings.Contains(ans.layout, "S")) {
 			fam := rec.ecs.Family
 			var a netip.Addr
 			if fam == 1 {
@@ -1302,7 +1386,15 @@ func execPipe(f []string) vlib.Res {
 				askedCD = !rec.cd
 			}
 		}
-		se := &storedEntry{labels: al, qtype: rec.q.Qtype, class: rec.q.Qclass, cd: askedCD, scope: allowed}
+		// the answer is FOR the question it carries
+		al, _ = oPresLabels(rec.rq.Name)
+		se := &storedEntry{labels: al, qtype: rec.rq.Qtype, class: rec.rq.Qclass, cd: askedCD, scope: allowed}
+		if ans.alias != nil {
+			se.alias, _ = ans.alias.labels()
+			if se.alias == nil {
+				se.alias = [][]byte{}
+			}
+		}
 		entries[rec.id] = se
 		impl := fmt.Sprintf("ans %d unstored", rec.id)
 		or := "ok"
@@ -1326,6 +1418,14 @@ func execPipe(f []string) vlib.Res {
 			}
 			return false
 		})
+		// what the asking client is told: the upstream's answer, completed by the write-back chase from the cache
+		replyS := classify(reply)
+		impl += " reply=" + strings.ReplaceAll(replyS, " ", "_")
+		if or == "ok" && ans.rq == nil && !ans.flipCD {
+			judgeFresh = rec.id
+			or = judge("pipe/ask-"+f[2]+"-reply", replyS, r, hasECSOpt(r))
+			judgeFresh = 0
+		}
 		return vlib.Res{Impl: impl, Oracle: or, Tags: strings.Join(append([]string{"nt", "via-upstream", fmt.Sprintf("qt%d", r.id.qtype)}, judgeTags...), ",")}
 	case "set": // pipe set <keyspec> <ident> <id> <alias|->
 		id := parseIdent(f[3])
